@@ -138,6 +138,9 @@ const panicWhat = "SanityCheckNewHeight panics with a nil pointer dereference, i
 
 const oldRootSig = "new-backend-opens-state-at-supplied-old-root"
 
+const declNoDefSig = "declared-class-without-definition-stored-from-0-14-1"
+const declNoDefWhat = "a self-consistent block of protocol >= 0.14.1 (block hash recomputed over the tampered state diff) whose state diff declares a Sierra class WITHOUT its definition in newClasses — an unknown class, or a class the chain already knows declared again under another compiled class hash, which is what sync delivers for a known class (fetchUnknownClasses fetches definitions of unknown classes only) — is stored: State.Update skips the class-trie leaf of a declared class whose definition is missing (both backends), so the state root does not change, and storeCasmHashMetadataV2, unlike storeCasmHashMetadataV1, writes the casm metadata without looking at newClasses; the stored state update declares a class the state root does not contain, and the casm metadata of a known class is overwritten with the forged compiled class hash"
+
 // knownRootCause maps accepted tamperings that share one cause in juno to one stable Sig.
 func knownRootCause(tc tamperCase, orig *lib.Bundle) (string, string) {
 	switch {
@@ -150,6 +153,8 @@ func knownRootCause(tc tamperCase, orig *lib.Bundle) (string, string) {
 	case reLongVer.MatchString(tc.Name) && len(tc.Bundle.Block.ProtocolVersion) >= 32:
 		return "long-protocol-version-wraps-mod-p",
 			"the block hash commits felt.SetBytes(ProtocolVersion), which reduces modulo the field prime, while ParseBlockVersion ignores everything after the third part: a 40-byte version string with the same value mod P (same or bumped version prefix) gives the same block hash, passes CheckBlockVersion and is persisted"
+	case strings.HasPrefix(tc.Name, "add:declared-v1:") && strings.Contains(tc.Name, "without-definition") && tc.Bundle.Block.ProtocolVersion >= "0.14.1":
+		return declNoDefSig, declNoDefWhat
 	case tc.Name == "field:.SU.OldRoot:zero":
 		return oldRootSig, "a block offered with StateUpdate.OldRoot = 0 instead of the head's state root was stored: the new state backend opens the state at the supplied OldRoot (zero = empty tries), so verifyComm compares that root with itself, and the diff happened to rewrite every leaf the empty tries lack"
 	case reDeployAny.MatchString(tc.Name), tc.Name == "compound:tx-replaced-by-legacy-deploy":
@@ -794,6 +799,7 @@ func runTask(f lib.Flags, res *lib.Result, task chainTask, only *replay) {
 			cases = append(cases, singleFieldCases(g, pos)...)
 			cases = append(cases, compoundCases(g, pos)...)
 			cases = append(cases, rehashCases(g, pos)...)
+			cases = append(cases, addedEntryCases(g, pos)...)
 			// valid blocks at the wrong position
 			if pos+1 <= last {
 				cases = append(cases, tamperCase{Name: "position:next-block", Detail: "the valid block one position ahead", Bundle: g.Bundles[pos+1].Clone(), MustReject: true})
